@@ -249,7 +249,7 @@ pub fn suite_raw(ctx: &mut Ctx) {
 
 /* ------------------------------------------------------------------------------------------ */
 
-fn capture_request(c: &Case) -> String {
+pub fn capture_request(c: &Case) -> String {
     format!(
         "capture {} {} {} | {} | {} | {} {} {} {}",
         alg_name(c.alg),
